@@ -18,22 +18,23 @@ def row(m: dict) -> str:
 
 def main() -> None:
     metas = [json.load(open(f)) for f in sorted(glob.glob(f'{ROOT}/seeded/*/meta.json'))]
-    rounds: dict[int, list[dict]] = {1: [], 2: [], 3: [], 4: []}
+    rounds: dict[int, list[dict]] = {1: [], 2: [], 3: [], 4: [], 5: []}
     for m in metas:
         rounds[int(m.get('round', 1))].append(m)
     head = '| change | needs, in order to manifest | caught by (quick tier) | first | typical mechanism key |\n|---|---|---|---|---|\n'
     titles = {1: '### Round 1', 2: '### Round 2 (different sites, subtler)',
               3: '### Round 3 (histories, caches, re-entrancy, two cooperating sites, dtype/mode combinations, rarely used entry points)',
-              4: '### Round 4 (overlooked input classes: boundary sizes, unusual pytrees, parameter kinds, shared infrastructure, rarely combined entry points)'}
+              4: '### Round 4 (overlooked input classes: boundary sizes, unusual pytrees, parameter kinds, shared infrastructure, rarely combined entry points)',
+              5: '### Round 5 (ten properties: thresholds, keyword values, feature interactions, error handling, shared helpers)'}
     out = ''
-    for r in (1, 2, 3, 4):
+    for r in (1, 2, 3, 4, 5):
         if rounds[r]:
             out += f'{titles[r]}\n\n{head}' + '\n'.join(row(m) for m in rounds[r]) + '\n\n'
     s = open(f'{ROOT}/DESIGN.md').read()
     a = s.index('### Round 1')
     b = s.index('### Strengthenings prompted by the first-round misses')
     open(f'{ROOT}/DESIGN.md', 'w').write(s[:a] + out + s[b:])
-    for r in (1, 2, 3, 4):
+    for r in (1, 2, 3, 4, 5):
         ms = rounds[r]
         print(f'round {r}: {len(ms)} changes, detected {sum(1 for m in ms if m["detected_by_quick_tier"])}, '
               f'by own check {sum(1 for m in ms if m["property"] in m["detected_by_quick_tier"])}, '
